@@ -12,7 +12,7 @@ RULE = ("cases = groups of Xml::decode calls (`dec`) on generated documents (com
         "mutations (every/random truncation, byte insert/delete/replace, extra/missing/mismatched end tags, </>, unterminated "
         "references), on token soups, random bytes and exhaustive short strings over markup alphabets; plus Xml::encode (`enc`) "
         "and decode(encode(t)) (`rt`) on generated DOM trees up to depth 12 (compact and indented) with & < > quotes, blanks "
-        "and bytes >= 0x80 in text and attribute values; non-trivial = distinct case with at least one non-empty input")
+        "and bytes >= 0x80 in text and attribute values; documents nested up to 300000 (thorough: 10^6) levels; non-trivial = distinct case with at least one non-empty input")
 TRUSTED = ["harness/c07.cpp canonical dump (tag, Map-ordered attributes, children, text, per-child `child.parent() == container`)"]
 ASSUMPTIONS = [
     "libc strtoul(s, NULL, 16) on NUL-free strings behaves as AslModel.Xml.strtoul16 (C locale blanks, sign, 0x prefix, "
@@ -400,11 +400,15 @@ def gen(rng, tier):
         tk = " ".join(tokens(t))
         cases.append(["enc 0 " + tk, "rt 0 " + tk, "rt 1 " + tk])
     cases.append(["enc 0 T 6162", "rt 0 T 6162", "enc 1 T 26", "rt 1 T 26", "enc 0 E - 0 0", "rt 0 E - 0 0"])
+    # 8. deeply nested documents built inside the harness / driver (kind 0: closed, 1: closed then a mismatched end tag so that
+    #    the tree is destroyed inside decode, 2: unclosed)
+    for n in ([0, 1, 2, 12, 13, 1000, 300000] if quick else [0, 1, 2, 12, 13, 1000, 50000, 300000, 1000000]):
+        cases.append(["deep %d %d" % (n, k) for k in (0, 1, 2)])
     return cases
 
 
 def nontrivial(case):
-    return any(len(l.split()) > 1 and l.split()[-1] != "-" for l in case)
+    return any(len(l.split()) > 1 and l.split()[-1] != "-" and not l.startswith("deep 0") for l in case)
 
 
 def distribution(cases):
@@ -416,6 +420,8 @@ def distribution(cases):
             t = l.split()
             op = t[0]
             d["ops_by_kind"][op] = d["ops_by_kind"].get(op, 0) + 1
+            if op == "deep":
+                d.setdefault("deep_nesting_levels", {})[t[1]] = d.get("deep_nesting_levels", {}).get(t[1], 0) + 1
             if op == "dec":
                 b = unhex(t[1])
                 k = "0" if not b else "1-7" if len(b) < 8 else "8-63" if len(b) < 64 else "64-511" if len(b) < 512 else "512+"
@@ -584,6 +590,9 @@ def reference(line):
     try:
         if t[0] == "dec":
             return ref_dec(unhex(t[1]))
+        if t[0] == "deep":
+            n = int(t[1])
+            return "deep depth=%d nodes=%d badparents=0" % (n, n) if t[2] == "0" and n > 0 else "deep null"
         if t[0] in ("rt", "enc"):
             tr, n = parse_tokens(t, 2)
             if n != len(t) or tr[0] != "E" or not tree_names_ok(tr):
